@@ -723,7 +723,7 @@ func safeRA(d []byte) []byte {
 // ---------------------------------------------------------------- the test
 
 func TestMutationsOfSignedRequests(t *testing.T) {
-	nbase := run.Pick(50, 2000)
+	nbase := run.Pick(50, 1200)
 	nw := runtime.NumCPU() / 2
 	if nw > 8 {
 		nw = 8
